@@ -11,5 +11,6 @@ cd ..
 ORDER=$(cd gen && ocamlfind ocamldep -sort *.ml)
 GEN=""
 for f in $ORDER; do GEN="$GEN gen/$f"; done
+rm -f runner
 ocamlfind ocamlopt -O3 -w -a -package zarith -linkpkg -I gen $GEN proto.ml driver.ml -o runner 2>&1 | grep -v "^$" || true
 test -x runner
